@@ -203,4 +203,48 @@ def alpStep (s : AlpState) : AlpEvent → AlpState × AlpOut
       | some (found, false) => (s, .set found)
       | none => (s, .err)
 
+/-! ### the OSV factory: the list of ecosystems and its validator
+
+  `osv.Factory` keeps `etag` and (after fix 0fa08085) `cur`, the set built
+  from the `ecosystems.txt` that etag belongs to.  `UpdaterSet`: GET
+  `ecosystems.txt` conditional on `etag`; 304 ⇒ `cur` (before the fix: an
+  empty set, so no OSV updater ran again while the list was unchanged); 200 ⇒
+  one updater per ecosystem (lower-cased line cut at `:`, first occurrence,
+  not in the ignore list); etag and set are stored only when the body was read
+  to its end. -/
+
+def dedupB : List Bytes → List Bytes → List Bytes
+  | [], _ => []
+  | x :: xs, seen => if seen.contains x then dedupB xs seen else x :: dedupB xs (x :: seen)
+
+/-- `updater.Name()`: `osv/<ecosystem>`. -/
+def osvUpdaterNames (lines : List Bytes) : List Bytes :=
+  (dedupB (lines.filterMap osvEcosystem) []).map fun e => [111, 115, 118, 47] ++ e
+
+structure OsvState where
+  etag : Bytes := []
+  cur : List Bytes := []
+  deriving Repr, BEq, DecidableEq
+
+inductive OsvEvent where
+  /-- the request failed or had an unexpected status -/
+  | fault
+  /-- the bucket holds these lines under the validator `etag`; `readOK`: the
+      body can be read to its end -/
+  | listing (etag : Bytes) (lines : List Bytes) (readOK : Bool)
+  deriving Repr
+
+def osvStep (s : OsvState) : OsvEvent → OsvState × AlpOut
+  | .fault => (s, .err)
+  | .listing etag lines ok =>
+    if s.etag != [] && s.etag == etag then (s, .set s.cur)
+    else if ok then ({ etag := etag, cur := osvUpdaterNames lines }, .set (osvUpdaterNames lines))
+    else (s, .err)
+
+/-- An event of a bucket whose validator determines its content: `none` = the
+    request fails; `some (etag, readOK)` = the bucket holds `content etag`. -/
+def osvEvOf (content : Bytes → List Bytes) : Option (Bytes × Bool) → OsvEvent
+  | none => .fault
+  | some (t, k) => .listing t (content t) k
+
 end ClairModel.Join
